@@ -104,6 +104,34 @@ theorem pull_all {P : Sess → Prop} (h : ClosedIO P) (s : Sess) (hp : P s) :
         · exact this
         · next u us rest hpc => exact h.fromClear s' u us rest this (by simpa using ht) hb' hpc
 
+/-- the address checks leave the session as it is: a header is only accepted when its `to` is the
+address the session already has, so the assignment `*in = newIn` changes nothing -/
+theorem infoTo_accepted (f : HFrom) (t : Option Addr) (a : Addr) (h : hdrAccepted f t a = true) :
+    infoTo t a = a := by
+  cases t with
+  | none => rfl
+  | some b =>
+    have : b = a := (by simpa [hdrAccepted] using h : _ ∧ b = a).2
+    subst this; rfl
+
+theorem acceptHdr_eq (f : HFrom) (t : Option Addr) (s : Sess) :
+    acceptHdr f t s = if hdrAccepted f t s.laddr then .ok () s else .stop (.err .proto) s := by
+  unfold acceptHdr
+  split
+  · next h => rw [infoTo_accepted f t s.laddr h]
+  · rfl
+
+theorem acceptHdr_id (f : HFrom) (t : Option Addr) (s : Sess) :
+    acceptHdr f t s = .ok () s ∨ acceptHdr f t s = .stop (.err .proto) s := by
+  rw [acceptHdr_eq]
+  split
+  · exact .inl rfl
+  · exact .inr rfl
+
+theorem acceptHdr_all {α : Type} {P : Sess → Prop} (f : HFrom) (t : Option Addr) (s : Sess) (hp : P s) :
+    (acceptHdr f t s).All P := by
+  rcases acceptHdr_id f t s with h | h <;> rw [h] <;> exact hp
+
 theorem expectHdr_all {P : Sess → Prop} (h : ClosedIO P) : ∀ n s, P s → (expectHdr n s).All P := by
   intro n
   induction n with
@@ -119,6 +147,7 @@ theorem expectHdr_all {P : Sess → Prop} (h : ClosedIO P) : ∀ n s, P s → (e
       cases u with
       | space => exact ih s' this
       | hdr ok => cases ok <;> exact this
+      | hdrA f t => exact acceptHdr_all (α := PUnit) f t s' this
       | _ => exact this
 
 /-- closed under what negotiator / features / session code does to a session -/
@@ -851,7 +880,7 @@ theorem init_clear (env : Env) (st0 : Mask) (i : Input) (h : env.conn.startsSecu
     init env st0 i =
       { state := st0, tls := false, hs := false, buf := [], clear := i.clear, prot := i.prot,
         oracle := i.oracle, negotiated := [], doRestart := true, first := true,
-        domain := env.domain, captured := env.captured, sni := env.conn.name, features := [], trace := [] } := by
+        laddr := ownAddr env st0, captured := env.captured, sni := env.conn.name, features := [], trace := [] } := by
   simp [init, h]
 
 /-- … and on a `*tls.Conn`: `Secure` set, the layer in place from the start -/
@@ -859,7 +888,7 @@ theorem init_secure (env : Env) (st0 : Mask) (i : Input) (h : env.conn.startsSec
     init env st0 i =
       { state := st0 ||| Secure, tls := true, hs := false, buf := [], clear := i.clear, prot := i.prot,
         oracle := i.oracle, negotiated := [], doRestart := true, first := true,
-        domain := env.domain, captured := env.captured, sni := env.conn.name, features := [], trace := [] } := by
+        laddr := ownAddr env st0, captured := env.captured, sni := env.conn.name, features := [], trace := [] } := by
   simp [init, h]
 
 /-- whatever the kind of connection the session is created on -/
@@ -875,7 +904,7 @@ theorem run_safe (cfg : Cfg) (env : Env) (st0 : Mask) (hc : Compliant cfg.toFCfg
       have h := loop_safe cfg st0 hc fuel false
         { state := st0, tls := false, hs := false, buf := [], clear := i.clear, prot := i.prot,
           oracle := i.oracle, negotiated := [], doRestart := true, first := true,
-          domain := env.domain, captured := env.captured, sni := env.conn.name, features := [], trace := [] }
+          laddr := ownAddr env st0, captured := env.captured, sni := env.conn.name, features := [], trace := [] }
         (Or.inr ⟨⟨⟨rfl, hs, rfl, rfl, fun e he => (by cases he)⟩, rfl⟩, hr⟩)
       refine ⟨?_, h.2⟩
       intro e he
@@ -885,7 +914,7 @@ theorem run_safe (cfg : Cfg) (env : Env) (st0 : Mask) (hc : Compliant cfg.toFCfg
       have h := loop_PA cfg fuel false
         { state := st0 ||| Secure, tls := true, hs := false, buf := [], clear := i.clear, prot := i.prot,
           oracle := i.oracle, negotiated := [], doRestart := true, first := true,
-          domain := env.domain, captured := env.captured, sni := env.conn.name, features := [], trace := [] }
+          laddr := ownAddr env st0, captured := env.captured, sni := env.conn.name, features := [], trace := [] }
         ⟨rfl, has_or_self st0 Secure, fun e he => (by cases he)⟩
       refine ⟨?_, h.2⟩
       intro e he
